@@ -115,25 +115,47 @@ class HandTap:
     """the boundary between stage k and stage k+1: records the hand-over (as an output of the action of stage k that is
     running), calls the real put() of the next element, and records what that put did to the next element"""
 
-    def __init__(self, h, k, nxt, sample_next, dst=None):
+    def __init__(self, h, k, nxt, sample_next, dst=None, extra=None):
         self.h, self.k, self.nxt, self.sample_next = h, k, nxt, sample_next
         self.dst = k + 1 if dst is None else dst
+        self.extra = extra or hand_extra(None, None, None)
 
     def put(self, p):
         uid = getattr(p, "uid", None)
-        self.h._emit(["out", "s%d" % self.k, uid, ec.pkt_fields(p), id(p) == id(self.h.packets.get(uid)), getattr(p, "color", None)])
+        self.h._emit(["out", "s%d" % self.k, uid, ec.pkt_fields(p), id(p) == id(self.h.packets.get(uid))] + self.extra(p))
         before = dict(p.perhop_time)
         self.nxt.put(p)
         self.h._emit(["hand", self.dst, uid, stamp_diff(before, p), self.sample_next()])
 
 
+def hand_extra(st, e, smp):
+    """what the element parts' own taps record about the FORWARDING element at the moment of out.put (a next hop that reads
+    the forwarder's public state inside its put() sees exactly this), appended to the out entry of stage st:
+    token buckets: packet.color and the shaper's sample; DRR: ["at-forward", per-flow counters, total_packets, class counts];
+    every other element: packet.color only"""
+    el = st["el"] if st else None
+    if el in ("tb", "trtb"):
+        return lambda p: [getattr(p, "color", None), smp()]
+    if el == "drr":
+        flows = sorted(f for f, _ in st["f2c"])
+        cls = [c for c, _ in st["weights"]]
+        return lambda p: [getattr(p, "color", None),
+                          ["at-forward", [[f, e.queue_count.get(f, 0), e.queue_byte_size.get(f, 0)] for f in flows], e.total_packets,
+                           [[k, e.class_count.get(k, 0)] for k in cls]]]
+    return lambda p: [getattr(p, "color", None)]
+
+
 class LastTap(ec.Tap):
-    """the recorder behind the last stage (also notes packet.color at the moment of out.put)"""
+    """the recorder behind the last stage (also notes what hand_extra says about the forwarding element)"""
+
+    def __init__(self, h, tag, extra=None):
+        super().__init__(h, tag)
+        self.extra = extra or hand_extra(None, None, None)
 
     def put(self, p):
         uid = getattr(p, "uid", None)
         self.got.append(p)
-        self.h._emit(["out", self.tag, uid, ec.pkt_fields(p), id(p) == id(self.h.packets.get(uid)), getattr(p, "color", None)])
+        self.h._emit(["out", self.tag, uid, ec.pkt_fields(p), id(p) == id(self.h.packets.get(uid))] + self.extra(p))
 
 
 class Router:
@@ -161,6 +183,57 @@ def ids_per_flow(w):
         nxt[sp["flow"]] = nxt.get(sp["flow"], 0) + 1
         sp["id"] = nxt[sp["flow"]]
     return w
+
+
+def wire_loss_arg(st):
+    """Wire(loss_rate=...) as a user writes it: None, an int when integral, else an exact float"""
+    if st["loss"] is None:
+        return None
+    loss = ec.T(st["loss"])
+    return int(loss) if loss == int(loss) else loss
+
+
+def wire_stage_actions(sc, o):
+    """the log of ONE wire (the layout of this file's wire sampler: packets_rec, len(store.items), uniform draws consumed,
+    delay draws consumed) -> the rows of Elem/Wire.v's wire_agree: (action, deliveries, (packets_rec, len(store.items)))"""
+    specs = sc["workload"]["packets"]
+    steps = {("Initialize", "run"): "WInit", ("StorePut", "store"): "WStoreCb", ("StoreGet", "store"): "get", ("Timeout", "run"): "WTimer"}
+    acts = []
+    nu = nd = 0
+    for e in o["log"]:
+        kind, sample = e[0], e[-1]
+        su, sd = sample[-2], sample[-1]
+        outs = []
+        if kind == "adv":
+            a = f"WAdvance {cf.q(e[1])}"
+        elif kind == "put":
+            a, outs = f"WPut {ec.pkt_coq(specs[str(e[1])], e[1])}", e[2]
+        elif kind == "step":
+            (tn, tgt), outs = e[1], e[2]
+            a = steps.get((tn, tgt))
+            if a is None:
+                return None, f"unexpected kernel step {e[1]}"
+            if a == "get":
+                if su > nu + 1 or sd > nd + 1:
+                    return None, "more than one draw of a kind in one step"
+                u = sc["uniforms"][nu] if su > nu else None
+                dd = sc["delays"][nd] if sd > nd else None
+                a = f"WGet {cf.opt(u, cf.q)} {cf.opt(dd, cf.q)}"
+        else:
+            return None, f"unexpected log entry {e[:2]}"
+        if (su, sd) != (nu, nd) and not (kind == "step" and e[1][0] == "StoreGet"):
+            return None, f"draws consumed outside a StoreGet step ({e[:2]})"
+        nu, nd = su, sd
+        dl = cf.lst([f"ODeliver {ec.pkt_coq(specs[str(x[2])], x[2])}" for x in outs])
+        acts.append(f"({a}, {dl}, ({cf.z(sample[0])}, {cf.nat(sample[1])}))")
+    return acts, None
+
+
+def wire_stage_agree(sc, o):
+    acts, err = wire_stage_actions(sc, o)
+    if acts is None:
+        return f"false (* {err} *)"
+    return f"wire_agree {cf.opt(sc['loss'], cf.q)} (wire0 0) {cf.lst(acts, sep=';' + chr(10) + '    ')}"
 
 
 def topo(case):
@@ -633,7 +706,7 @@ class GenSinkPart:
         import contextlib
         from onl.sim import Environment
         import onl.netdev.wire as wmod
-        from props.part_wire import Script as WScript, _loss_arg
+        from props.part_wire import Script as WScript
         from props.part_bucket import num
         env = Environment()
         h = PipeHarness(env)
@@ -674,11 +747,12 @@ class GenSinkPart:
                     if stages[k]["el"] in ("flowdemux", "fibdemux"):
                         samplers[k] = (lambda: None)
                         continue
-                    elems[k], samplers[k] = self._pipe_element(env, h, k, stages[k], unis, wmod, _loss_arg, num)
+                    elems[k], samplers[k] = self._pipe_element(env, h, k, stages[k], unis, wmod, wire_loss_arg, num)
+                X = [hand_extra(stages[k], elems[k], samplers[k]) if elems[k] is not None else None for k in range(n)]
                 if case["kind"] == "fanin":
-                    elems[0].out = HandTap(h, 0, elems[2], samplers[2], dst=2)
-                    elems[1].out = HandTap(h, 1, elems[2], samplers[2], dst=2)
-                    elems[2].out = LastTap(h, "s2")
+                    elems[0].out = HandTap(h, 0, elems[2], samplers[2], dst=2, extra=X[0])
+                    elems[1].out = HandTap(h, 1, elems[2], samplers[2], dst=2, extra=X[1])
+                    elems[2].out = LastTap(h, "s2", extra=X[2])
                     h.attach(Router(topo(case)["entry"], elems))
                 elif case["kind"] == "fanout":
                     from onl.netdev.demux import FlowDemux, FIBDemux
@@ -687,16 +761,16 @@ class GenSinkPart:
                         elems[1] = FlowDemux(outs, None)
                     else:
                         elems[1] = FIBDemux(outs=outs, fib={int(f): q for f, q in stages[1]["fib"].items()})
-                    elems[0].out = HandTap(h, 0, elems[1], samplers[1], dst=1)
-                    elems[2].out = LastTap(h, "s2")
-                    elems[3].out = LastTap(h, "s3")
+                    elems[0].out = HandTap(h, 0, elems[1], samplers[1], dst=1, extra=X[0])
+                    elems[2].out = LastTap(h, "s2", extra=X[2])
+                    elems[3].out = LastTap(h, "s3", extra=X[3])
                     h.attach(elems[0])
                 else:
                     for k in range(n):
                         if k + 1 < n:
-                            elems[k].out = HandTap(h, k, elems[k + 1], samplers[k + 1])
+                            elems[k].out = HandTap(h, k, elems[k + 1], samplers[k + 1], extra=X[k])
                         else:
-                            elems[k].out = LastTap(h, "s%d" % k)
+                            elems[k].out = LastTap(h, "s%d" % k, extra=X[k])
                     h.attach(elems[0])
                 h.after_action(lambda: [f() for f in samplers])
                 if not case.get("pre"):
@@ -930,15 +1004,20 @@ class GenSinkPart:
             sc = self._pipe_subcase(case, st)
             part = parts[st["el"]]
             o = {"log": sub[k], "raised": None, "exhausted": obs["exhausted"]}
+            if st["el"] in ("sp", "rr", "wrr", "wfq", "vc", "wire", "port", "red"):
+                # part_mq / part_wfq read a 6th field of an output as "the counters the next hop read at the hand-off"; ours is the colour
+                o["log"] = [([e[0], e[1], [x[:5] for x in e[2]]] + e[3:]) if e[0] in ("put", "step") else e for e in sub[k]]
             if st["el"] == "drr":
                 from props import part_drr
                 o["quantum"] = obs["final"][k]["quantum"]
                 acts, e2 = part_drr.actions(sc, o)
             elif st["el"] in ("tb", "trtb"):
                 acts, e2 = part._obs_term(sc, o)
+            elif st["el"] == "wire":
+                acts, e2 = wire_stage_actions(sc, o)            # props/part_wire.py's own mapping is cable / hub shaped by now
             else:
                 acts, e2 = part._actions(sc, o)
-            stage_terms.append("(" + part.agree_term(sc, o) + ")")
+            stage_terms.append("(" + (wire_stage_agree(sc, o) if st["el"] == "wire" else part.agree_term(sc, o)) + ")")
             if acts is None:
                 return None, None, f"stage {k}: {e2}"
             if len(acts) != len(sub[k]):
